@@ -131,22 +131,34 @@ def edit(rng, d):
     if k == 'add-attr':
         c = rng.choice(d.classes)
         ty = rng.choice(c14.TYPES + ['Color', 'Deep_t', 'void'] + unsupported_types(d, c))
-        c.attrs.insert(rng.randint(1, len(c.attrs)), bp.Attr('added%d' % rng.randrange(1000), ty))
+        c.attrs.insert(rng.randint(1, len(c.attrs)), bp.Attr(unique_name(d, 'added', rng), ty))
         return ('add-attr', c.kl, ty)
     if k == 'add-enum':
         n, vals, w = d.enums[0]
-        vals.insert(rng.randint(0, len(vals)), rng.choice(('E%d' % rng.randrange(1000), 'global', 'True', 'is')))
+        fresh = [x for x in (unique_name(d, 'E', rng), 'global', 'True', 'is') if x not in vals]
+        vals.insert(rng.randint(0, len(vals)), rng.choice(fresh))
         return ('add-enumerator', n)
     if k == 'reorder-enum':
         n, vals, w = d.enums[0]
         rng.shuffle(vals)
         return ('reorder-enumerators', n, list(vals))
     if k == 'add-udt':
-        name = 'U%d' % rng.randrange(1000)
+        name = unique_name(d, 'U', rng)
         d.udts.append((name, rng.choice(('integer', 'string', 'Color', 'Count_t', 'void', 'inst_ref<Object>')),
                        rng.choice(('pkg', 'comp', 'deep'))))
         return ('add-user-type', name)
     return None
+
+
+def unique_name(d, prefix, rng):
+    '''a name no attribute, enumerator or type of the diagram carries yet (two types or attributes of one
+    name would be another input than the one the edit is meant to be)'''
+    used = set(a.name for c in d.classes for a in c.attrs) | set(n for n, _, _ in d.udts) | \
+        set(n for n, _, _ in d.enums) | set(v for _, vals, _ in d.enums for v in vals)
+    while True:
+        name = '%s%d' % (prefix, rng.randrange(1000))
+        if name not in used:
+            return name
 
 
 def unsupported_types(d, c):
@@ -185,7 +197,7 @@ def one_diagram(ctx, rng, tmpdir):
     for c in d.classes:
         if rng.random() < 0.3:
             ctx.hit('Xsd.attribute-of-unsupported-data-type')
-            c.attrs.append(bp.Attr('odd%d' % rng.randrange(100), rng.choice(unsupported_types(d, c))))
+            c.attrs.append(bp.Attr(unique_name(d, 'odd', rng), rng.choice(unsupported_types(d, c))))
     if rng.random() < 0.7:
         special_names(rng, d)
         ctx.hit('Xsd.xml-special-names')
